@@ -107,7 +107,7 @@ BrokerStep(c) ==
   \/ GotPkt(c, "PUBLISH") /\ cl[c].pkt.msg.q \in {0, 1} /\ PubCall(c, cl[c].pkt.msg, cl[c].pkt.msg.q = 1)
   \/ cl[c].pc = "rel.known" /\ PubCall(c, cl[c].pkt.msg, TRUE)
   \/ cl[c].cleanup = "start" /\ WillOwed(c) /\ PubCall(c, cl[c].will, FALSE)
-  \/ \E s \in SKeys : \E drop \in BOOLEAN : FanOut(c, s, drop)
+  \/ \E s \in SKeys : \E drop, keep \in BOOLEAN : FanOut(c, s, drop, keep)
   \/ \E a \in ackdue[c] : PubAck(c, a.m)
   \/ /\ pubctx[c].on /\ \A a \in ackdue[c] : a.m # pubctx[c].msg.m         \* MemoryBackend: the ack is invoked before Publish returns,
      /\ AckFirst \/ ~HasSess(c) \/ \A x \in S(c).inc : ~x.acked              \* and the ack deletes the stored message before it queues PUBCOMP
